@@ -12,19 +12,27 @@ CONSTANTS Conns,       \* connection ids (two for OthersUnaffected)
           NP,          \* pieces per frame (1 = the transport takes whole frames)
           Limit,       \* max_concurrent_connections
           MaxFail,     \* failed connection setups explored
-          MaxAErr      \* failing accept() calls explored
+          MaxAErr,     \* failing accept() calls explored
+          AAMs         \* Config::accept_connections_at_max values explored
 
 VARIABLES conns, dg, bud
 vars == <<conns, dg, bud>>
 
 Init == /\ \E q \in QCaps : conns = [c \in Conns |-> [InitConn(Dev, q) EXCEPT !.np = NP]]
         /\ dg = InitDg
-        /\ bud = [sent |-> [c \in Conns |-> 0], credit |-> 0, tick |-> 0,
+        /\ \E aam \in AAMs : bud = [aam |-> aam,
+                  \* the accept arm of the server's select loop is enabled: its guard
+                  \* (accepting_connections) is evaluated when the loop goes round,
+                  \* i.e. after an accept and after a command -- and (ideal) after a
+                  \* connection ended
+                  armed |-> TRUE, scmd |-> 0,
+                  sent |-> [c \in Conns |-> 0], credit |-> 0, tick |-> 0,
                   abort |-> 0, down |-> FALSE, dsent |-> 0,
                   nconn |-> 0,      \* ServerMetrics::num_connections
                   fail |-> 0, refused |-> {},
                   listening |-> TRUE,   \* the accept loop of StreamServer::run is alive
                   aerr |-> 0, dreconf |-> 0, dspur |-> 0, dserr |-> 0]
+Accepting == bud.listening /\ bud.armed
 
 Local(c, f) == conns' = [conns EXCEPT ![c] = f] /\ UNCHANGED dg
 S(c) == conns[c]
@@ -35,16 +43,30 @@ Sent(c) == bud' = [bud EXCEPT !.sent[c] = @ + 1]
 \* ---- environment ----
 \* stream.rs run_until_error / spawn_connection_handler, Connection::run, Drop
 \* poll_accept itself fails (ECONNABORTED, EMFILE ...): logged, the loop goes on
-AcceptError == /\ bud.listening /\ bud.aerr < MaxAErr
-               /\ bud' = [bud EXCEPT !.aerr = @ + 1] /\ UNCHANGED <<conns, dg>>
-AcceptOk(c) == /\ S(c).st = "none" /\ bud.listening /\ bud.nconn < Limit
+AcceptError == /\ Accepting /\ bud.aerr < MaxAErr
+               /\ bud' = [bud EXCEPT !.aerr = @ + 1, !.armed = bud.aam \/ bud.nconn < Limit]
+               /\ UNCHANGED <<conns, dg>>
+AcceptOk(c) == /\ S(c).st = "none" /\ Accepting /\ bud.nconn < Limit
                /\ Local(c, EnvOpen(S(c))) /\ bud' = [bud EXCEPT !.nconn = @ + 1]
-AcceptFail(c) == /\ S(c).st = "none" /\ bud.listening /\ bud.nconn < Limit /\ bud.fail < MaxFail
+AcceptFail(c) == /\ S(c).st = "none" /\ Accepting /\ bud.nconn < Limit /\ bud.fail < MaxFail
                  /\ Local(c, EnvNoConn(S(c))) /\ bud' = [bud EXCEPT !.fail = @ + 1]
-AcceptRefuse(c) == /\ S(c).st = "none" /\ bud.listening /\ bud.nconn >= Limit
-                   /\ Local(c, EnvNoConn(S(c))) /\ bud' = [bud EXCEPT !.refused = @ \cup {c}]
+\* at the limit an accepted connection is dropped; the loop goes round and
+\* with accept_connections_at_max = false stops accepting
+AcceptRefuse(c) == /\ S(c).st = "none" /\ Accepting /\ bud.nconn >= Limit
+                   /\ Local(c, EnvNoConn(S(c)))
+                   /\ bud' = [bud EXCEPT !.refused = @ \cup {c}, !.armed = bud.aam]
+\* a connection handler ends: there is room again, the server looks at its
+\* limit again (D_accept_not_resumed: nothing wakes the loop)
 ConnClose(c) == /\ S(c).st = "closed" /\ S(c).live
-                /\ Local(c, [S(c) EXCEPT !.live = FALSE]) /\ bud' = [bud EXCEPT !.nconn = @ - 1]
+                /\ Local(c, [S(c) EXCEPT !.live = FALSE])
+                /\ bud' = [bud EXCEPT !.nconn = @ - 1,
+                                      !.armed = IF "D_accept_not_resumed" \in Dev THEN @
+                                                ELSE (@ \/ bud.aam \/ bud.nconn - 1 < Limit)]
+\* any command (here: reconfigure with the configuration in force) makes the
+\* loop go round
+SCmd == /\ bud.listening /\ bud.scmd < 1
+        /\ bud' = [bud EXCEPT !.scmd = @ + 1, !.armed = bud.aam \/ bud.nconn < Limit]
+        /\ UNCHANGED <<conns, dg>>
 RecvFrame(c) == /\ CanSend(c)
                 /\ \E svc \in Kinds : Local(c, EnvSend(S(c), "query", bud.sent[c] + 1, svc))
                 /\ Sent(c)
@@ -127,7 +149,7 @@ DSend == \E r \in DOMAIN dg.tasks :
            DgCanYield(dg, r) /\ dg' = DgYield(dg, r) /\ UNCHANGED bud /\ DSame
 
 NextConn ==
-  \/ HalfTick \/ CloseCmd \/ AcceptError
+  \/ HalfTick \/ CloseCmd \/ AcceptError \/ SCmd
   \/ \E c \in Conns :
        \/ AcceptOk(c) \/ AcceptFail(c) \/ AcceptRefuse(c) \/ ConnClose(c) \/ RecvFrame(c) \/ RecvPartial(c) \/ RecvRest(c) \/ RecvShort(c)
        \/ RecvReply(c) \/ PeerAbort(c) \/ Release(c) \/ Credit(c)
@@ -160,6 +182,10 @@ IdleUsesValueInForce ==
      IN S(c).itmo \in {IdleDefault, IdleLong, IdleShort}
         /\ (S(c).itmo # IdleDefault => \E r \in DOMAIN S(c).tasks : S(c).tasks[r].disp)
 AcceptLoopAlive == bud.listening = ~bud.down
+\* below the limit a running server takes connections on ("... never
+\* prevents other requests from being answered"): whatever earlier
+\* connections did, however they ended
+AcceptServes == (bud.listening /\ bud.nconn < Limit) => bud.armed
 NumConnsExact == bud.nconn = Cardinality({c \in Conns : S(c).live})
 RefusedOnlyAtLimit ==
   [][\A c \in Conns : (c \in bud'.refused /\ c \notin bud.refused)
